@@ -210,12 +210,18 @@ func tryCreateDateTimestamp(year, month, day int, precision TimestampPrecision) 
 func tryCreateTimestamp(ts []int, nsecs int, overflow bool, offset, sign int64, precision TimestampPrecision, fractionPrecision uint8) (Timestamp, error) {
 	date := time.Date(ts[0], time.Month(ts[1]), ts[2], ts[3], ts[4], ts[5], nsecs, time.UTC)
 	// time.Date converts 2000-01-32 input to 2000-02-01
-	if ts[0] != date.Year() || time.Month(ts[1]) != date.Month() || ts[2] != date.Day() {
+	if ts[0] != date.Year() || time.Month(ts[1]) != date.Month() || ts[2] != date.Day() ||
+		ts[3] != date.Hour() || ts[4] != date.Minute() || ts[5] != date.Second() {
 		return Timestamp{}, fmt.Errorf("ion: invalid timestamp")
 	}
 
 	if precision <= TimestampPrecisionDay {
 		return NewDateTimestamp(date, precision), nil
+	}
+
+	// An offset is a signed number of minutes of less than a day.
+	if offset <= -24*60 || offset >= 24*60 {
+		return Timestamp{}, fmt.Errorf("ion: invalid timestamp offset")
 	}
 
 	if overflow {
